@@ -29,7 +29,7 @@ import (
 	"github.com/flamego/flamego/verifharness/internal/rt"
 )
 
-const rule = "round = an application with 0..7 separately added middleware, routes of every kind (static via the shortcut, optional static, regex with user groups, placeholder, match-all with capture, header-constrained, named routes whose handlers build URLs, two routes declared from one handler list and a shorter cut of it, Logger, Recovery, Renderer and Static (with ETags; plain files, a missing file, and a directory answered with its long index file) middleware, AutoHead on (some requests are HEAD), a route that renders JSON through the request-scoped Render service, a route that renders a value the encoder refuses and one whose encoding dawdles, a route whose handler panics, a route that reads the request body, yields and echoes it, a route answering through two return values with a dawdling before-function, Before handlers in front of the router (one passes, one answers some requests itself), an outer parent of the application injector holding a service the handlers resolve, a middleware that maps a per-request token read from a header, handlers that receive it by type and an application service through an interface it implements; some requests make the route's first handler note the token in the request's own parameter map, some are not-found after a partial match, some use a method the router has no table for; expected responses = every distinct request served alone by an instance that has served nothing else; instance B is fresh (nothing lazily cached yet) and is hit by 2..16 goroutines released together, each with its own list of 5..40 requests and runtime.Gosched() yields inside the handlers, under GOMAXPROCS in {2,4,16}. " +
+const rule = "round = an application with 0..7 separately added middleware, routes of every kind (static via the shortcut, optional static, regex with user groups, placeholder, match-all with capture, header-constrained, a second application mounted below /mount whose outer handler writes after it is back, a directory without index file below Static that one round in eight is requested a hundred times, named routes whose handlers build URLs, two routes declared from one handler list and a shorter cut of it, Logger, Recovery, Renderer and Static (with ETags; plain files, a missing file, and a directory answered with its long index file) middleware, AutoHead on (some requests are HEAD), a route that renders JSON through the request-scoped Render service, a route that renders a value the encoder refuses and one whose encoding dawdles, a route whose handler panics, a route that reads the request body, yields and echoes it, a route answering through two return values with a dawdling before-function, Before handlers in front of the router (one passes, one answers some requests itself), an outer parent of the application injector holding a service the handlers resolve, a middleware that maps a per-request token read from a header, handlers that receive it by type and an application service through an interface it implements; some requests make the route's first handler note the token in the request's own parameter map, some are not-found after a partial match, some use a method the router has no table for; expected responses = every distinct request served alone by an instance that has served nothing else; instance B is fresh (nothing lazily cached yet) and is hit by 2..16 goroutines released together, each with its own list of 5..40 requests and runtime.Gosched() yields inside the handlers, under GOMAXPROCS in {2,4,16}. " +
 	"Oracle: (1) every concurrent response (status, all response headers and body = route marker + echoed parameters + token + built URL) equals the response to the same request served alone; (2) the Go race detector reports nothing (binary built with -race, GORACE=halt_on_error=1; the driver turns a report into a violation). " +
 	"non-trivial = a round in which >= 2 goroutines start with the same dynamic named route (the first use of lazily cached state is contended) and >= 3 kinds of route are hit; distinct by round text"
 
@@ -63,6 +63,13 @@ func TestMain(m *testing.M) {
 		panic(err)
 	}
 	if err := os.WriteFile(filepath.Join(dir, "docs", "index.html"), []byte(idx.String()), 0o644); err != nil {
+		panic(err)
+	}
+	// a directory without an index file: Static has nothing to send for it
+	if err := os.MkdirAll(filepath.Join(dir, "bare"), 0o755); err != nil {
+		panic(err)
+	}
+	if err := os.WriteFile(filepath.Join(dir, "bare", "x.txt"), []byte("x"), 0o644); err != nil {
 		panic(err)
 	}
 	evid.AtExit(func() { _ = os.RemoveAll(dir) })
@@ -258,6 +265,23 @@ func build(r Round) *flamego.Flame {
 		yield()
 		return fmt.Sprintf("echo|%s|err=%v|token=%s", data, err, t.v)
 	})
+	// a second application mounted below a path of the first one: it is handed
+	// the writer and the request of the outer request, whose chain goes on
+	// (and writes) when the mounted application is back
+	admin := flamego.NewWithLogger(io.Discard)
+	admin.Get("/mount/{x}", func(c flamego.Context) string {
+		yield()
+		return "mounted|" + c.Param("x") + "|token=" + c.Request().Header.Get("X-Token")
+	})
+	admin.NotFound(func(c flamego.Context) string {
+		c.ResponseWriter().WriteHeader(http.StatusNotFound)
+		return "mounted-notfound|token=" + c.Request().Header.Get("X-Token")
+	})
+	f.Any("/mount/{**}", func(c flamego.Context, t *token) {
+		c.Next()
+		yield()
+		_, _ = c.ResponseWriter().Write([]byte("|outer-after=" + t.v))
+	}, admin.ServeHTTP)
 	f.NotFound(func(c flamego.Context, t *token) string {
 		c.ResponseWriter().WriteHeader(http.StatusNotFound)
 		return "notfound|token=" + t.v
@@ -511,7 +535,9 @@ var seg = []string{"a", "bob", "x.y", "12", "%41", "main.go", "src", "lib", "dee
 func genReq(t *rapid.T, n int) Req {
 	s := func() string { return seg[rapid.IntRange(0, len(seg)-1).Draw(t, "seg")] }
 	q := Req{M: "GET", Token: fmt.Sprintf("tok-%d", n)}
-	switch rapid.IntRange(0, 21).Draw(t, "rk") {
+	switch rapid.IntRange(0, 22).Draw(t, "rk") {
+	case 22:
+		q.P = []string{"/mount/" + s(), "/mount/" + s(), "/mount/" + s() + "/deeper"}[rapid.IntRange(0, 2).Draw(t, "mnt")]
 	case 0:
 		q.P = "/"
 	case 1:
@@ -570,7 +596,7 @@ func genReq(t *rapid.T, n int) Req {
 		q.P = "//users//" + s()
 	case 15:
 		// a file served by the Static middleware (with its ETag)
-		q.P = "/assets/" + []string{"a.txt", "b.txt", "c.css", "d.js", "e.html", "nosuch.txt", "docs/", "docs/", "docs"}[rapid.IntRange(0, 8).Draw(t, "asset")]
+		q.P = "/assets/" + []string{"a.txt", "b.txt", "c.css", "d.js", "e.html", "nosuch.txt", "docs/", "docs/", "docs", "bare/", "bare/x.txt", "bare"}[rapid.IntRange(0, 11).Draw(t, "asset")]
 	case 14:
 		// not found after part of the path was matched (and captured) on the way
 		q.P = []string{"/users/" + s() + "/extra", "/members/" + s() + "/" + s() + "/more", "/multi/" + s() + "/x", "/files/" + s() + "/a/b/c/d/raw", "/g/" + s() + "/r", "/posts/2021-" + s()}[rapid.IntRange(0, 5).Draw(t, "pm")]
@@ -624,6 +650,21 @@ func genRound(t *rapid.T) Round {
 			Req{M: "GET", P: "/assets/docs/", Token: fmt.Sprintf("tok-%d", n+1)})
 		n += 2
 	}
+	if rapid.IntRange(0, 2).Draw(t, "mountpair") == 0 {
+		// on purpose: the mounted application, from several goroutines
+		r.Pool = append(r.Pool,
+			Req{M: "GET", P: "/mount/" + seg[rapid.IntRange(0, len(seg)-1).Draw(t, "mountseg")], Token: fmt.Sprintf("tok-%d", n)},
+			Req{M: "GET", P: "/mount/" + seg[rapid.IntRange(0, len(seg)-1).Draw(t, "mountseg2")], Token: fmt.Sprintf("tok-%d", n+1)})
+		n += 2
+	}
+	hammer := -1
+	if rapid.IntRange(0, 7).Draw(t, "hammer") == 0 {
+		// on purpose: one request that Static cannot serve (a directory without
+		// index file), a hundred times over the life of the instance
+		r.Pool = append(r.Pool, Req{M: "GET", P: "/assets/bare/", Token: fmt.Sprintf("tok-%d", n)})
+		hammer = n
+		n++
+	}
 	g := rapid.IntRange(2, 16).Draw(t, "goroutines")
 	same := rapid.IntRange(0, 2).Draw(t, "samefirst") > 0
 	first := rapid.IntRange(0, n-1).Draw(t, "first")
@@ -635,6 +676,13 @@ func genRound(t *rapid.T) Round {
 		}
 		if same {
 			list[0] = first
+		}
+		if hammer >= 0 {
+			for j := 0; j < 100/g+1; j++ {
+				list = append(list, hammer)
+			}
+			// (and something else behind it, which must still be answered)
+			list = append(list, rapid.IntRange(0, n-1).Draw(t, "afterhammer"))
 		}
 		r.Lists = append(r.Lists, list)
 	}
